@@ -7,10 +7,12 @@ CONSTANTS
   HashSel = 1
   Collide <- NoCollide
   Part = "cache"
-  MaxClock = 3
-  MaxAdmits = 2
+  MaxClock = 4
+  MaxAdmits = 4
   AdmitSub = 3
   MinimalProofs = TRUE
+  WithForge = TRUE
+  ForgeTypes = {"A", "DS"}
   EmitCases = FALSE
 INIT Init
 NEXT Next
